@@ -1830,6 +1830,32 @@ func emitLean(gos []*xGo, out string) error {
 		}
 		b.WriteString("] }\n\n")
 	}
+	// the goroutines the driver and the theorems name: when the source no longer has one of them (a pool rewritten
+	// without a channel …) a placeholder keeps the Lean sources compiling — so that the cases still run and the oracle
+	// can find a failing input — while its shape (a counted worker whose only exit skips wg.Done) breaks the table
+	// decisions, and it is listed in `missingGoroutines` (decided empty)
+	var missing []string
+	for _, want := range []string{"Compare_worker0", "CompareWeighted_worker0", "FBP_worker0", "TBE_worker0", "TBE_go0", "ReadMultiTrees_go0",
+		"Compare_closer0", "CompareWeighted_closer0", "FBP_closer0"} {
+		found := false
+		for _, n := range names {
+			if n == want {
+				found = true
+			}
+		}
+		if !found {
+			missing = append(missing, want)
+			fmt.Fprintf(&b, "def %s : Goroutine :=\n  { file := \"MISSING\", fn := %s, line := 0, rangesOver := \"\", counted := true,\n    exits := [⟨.rangeEnd, 0, false⟩], writes := [], sends := [], closes := [], accesses := [], multi := false, waits := false, addOK := false,\n    returnsBeforeClose := [], unfollowed := [\"goroutine not found in the source\"] }\n\n", want, leanStr(want))
+		}
+	}
+	b.WriteString("/-- goroutines the model names that the extractor did not find in the source (placeholders above) -/\ndef missingGoroutines : List String := [")
+	for i, m := range missing {
+		if i > 0 {
+			b.WriteString(", ")
+		}
+		b.WriteString(leanStr(m))
+	}
+	b.WriteString("]\n\n")
 	var inNames, otherNames []string
 	for i, g := range gos {
 		if strings.HasPrefix(g.File, "cmd/") {
